@@ -1,12 +1,1720 @@
-//! C20 - not implemented yet
-use crate::common::Report;
+//! C20 - approximate numeric operations stay close to the real function.
+//!
+//! Bounded-exhaustive sweep: for every configuration (operation x parameters x scalar type x kind of
+//! initial approximation) EVERY representable input of the documented domain is fed through the real
+//! pipeline (custom-op instantiation + inlining + SimpleEvaluator) as large arrays and compared, point by
+//! point, with an f64 evaluation of the exact function. The tolerance per operation is the error the
+//! SOURCE states (doc comments, the `log_buckets => max abs error` tables, the bounds the repo's own
+//! tests assert) plus 2 units of the fixed-point grid for rounding.
+//! Second part (regression oracle, weaker, labelled so): compiled secure versions on sub-grids vs plaintext.
+use crate::common::{catch, Report};
+use crate::exec::{first_line, new_eval, Plan, RealRandomness};
+use crate::mpcx::{self, Owner};
+use crate::vals;
+use ciphercore_base::custom_ops::{run_instantiation_pass, CustomOperation};
+use ciphercore_base::data_types::{array_type, ScalarType, INT64, UINT64};
+use ciphercore_base::data_values::Value;
+use ciphercore_base::evaluators::Evaluator;
+use ciphercore_base::graphs::{create_context, Context};
+use ciphercore_base::inline::inline_ops::{inline_operations, InlineConfig, InlineMode};
+use ciphercore_base::ops::fixed_precision::fixed_multiply::FixedMultiply;
+use ciphercore_base::ops::fixed_precision::fixed_precision_config::FixedPrecisionConfig;
+use ciphercore_base::ops::goldschmidt_division::GoldschmidtDivision;
+use ciphercore_base::ops::inverse_sqrt::InverseSqrt;
+use ciphercore_base::ops::newton_inversion::NewtonInversion;
+use ciphercore_base::ops::pwl::approx_exponent::ApproxExponent;
+use ciphercore_base::ops::pwl::approx_gelu::ApproxGelu;
+use ciphercore_base::ops::pwl::approx_gelu_derivative::ApproxGeluDerivative;
+use ciphercore_base::ops::pwl::approx_sigmoid::ApproxSigmoid;
+use ciphercore_base::ops::taylor_exponent::TaylorExponent;
+use rayon::prelude::*;
+use serde_json::{json, Value as J};
+use std::collections::BTreeSet;
 
-pub fn run(_r: &Report) -> i32 {
-    println!("MACHINERY-ERROR property=C20 check not implemented");
-    2
+// ---------------------------------------------------------------------------------------------
+// Stated bounds (copied from the source, with where they are stated)
+// ---------------------------------------------------------------------------------------------
+
+/// approx_sigmoid.rs:82-85 "max absolute difference to the real sigmoid": log_buckets 4,5,6
+const SIGMOID_TABLE: [(u64, f64); 3] = [(4, 0.0163), (5, 0.0045), (6, 0.0012)];
+/// approx_gelu.rs:80-83 "max absolute difference": log_buckets 4,5,6
+const GELU_TABLE: [(u64, f64); 3] = [(4, 0.0232), (5, 0.0059), (6, 0.0015)];
+/// approx_gelu_derivative.rs:82-85 "max absolute error is around": log_buckets 4,5,6
+const GELUD_TABLE: [(u64, f64); 3] = [(4, 0.024), (5, 0.006), (6, 0.0015)];
+/// newton_inversion.rs / inverse_sqrt.rs tests: |result - expected| <= 1
+const NEWTON_UNITS: f64 = 1.0;
+/// goldschmidt_division.rs tests: relative error <= 1 %
+const GOLD_REL: f64 = 0.01;
+/// taylor_exponent.rs tests: |e-a| / (1 + max(e,a)) <= 0.01
+const TAYLOR_REL: f64 = 0.01;
+/// approx_exponent.rs tests: |e-a| / (1 + max(e,a)) <= 0.05
+const AEXP_REL: f64 = 0.05;
+/// rounding allowance on top of every stated bound (floor in the op + floor in the repo's own expected values)
+const ROUND_UNITS: f64 = 2.0;
+
+// ---------------------------------------------------------------------------------------------
+// Secure-vs-plaintext regression bounds (frozen = 2 x measured maximum on the unchanged tree)
+// measured on tree bb565a2 with VERIF_SEED=0, seeds 0..SECURE_SEEDS_MEASURED, inline mode Simple
+// ---------------------------------------------------------------------------------------------
+const SECURE_SEEDS_QUICK: u64 = 2;
+const SECURE_SEEDS_THOROUGH: u64 = 4;
+/// (op name, maximum measured over both tiers, frozen bound = 2 x measured); units: grid units, TaylorExponent: ppm
+const SECURE_BOUNDS: [(&str, i128, i128); 4] = [
+    // quick 17, thorough 21 (ApproxSigmoid: the +-1 of the secure Truncate of the bucket index selects the
+    // neighbouring segment, whose line is up to f''*h^2 = 0.024 = 24 units of 2^-10 away)
+    ("ApproxSigmoid", 21, 42),
+    // quick 2, thorough 2
+    ("NewtonInversion", 2, 4),
+    // quick 34, thorough 44 (not self-correcting: every Truncate error is carried to the quotient)
+    ("GoldschmidtDivision", 44, 88),
+    // quick 3892 ppm, thorough 4141 ppm (+-1 unit of x/ln2 at precision 10 is a factor 2^(1/1024) ~ 700 ppm each)
+    ("TaylorExponent", 4141, 8282),
+];
+
+// ---------------------------------------------------------------------------------------------
+// Configurations
+// ---------------------------------------------------------------------------------------------
+
+#[derive(Clone, Copy, Debug, PartialEq, Eq)]
+enum Op {
+    Newton,
+    InvSqrt,
+    Gold,
+    Taylor,
+    AExp,
+    Sigmoid,
+    Gelu,
+    GeluD,
+    FixMul,
 }
 
-pub fn replay(_r: &Report, _rec: &serde_json::Value) -> i32 {
-    println!("MACHINERY-ERROR property=C20 replay not implemented");
-    2
+impl Op {
+    fn name(&self) -> &'static str {
+        match self {
+            Op::Newton => "NewtonInversion",
+            Op::InvSqrt => "InverseSqrt",
+            Op::Gold => "GoldschmidtDivision",
+            Op::Taylor => "TaylorExponent",
+            Op::AExp => "ApproxExponent",
+            Op::Sigmoid => "ApproxSigmoid",
+            Op::Gelu => "ApproxGelu",
+            Op::GeluD => "ApproxGeluDerivative",
+            Op::FixMul => "FixedMultiply",
+        }
+    }
+    fn from_name(s: &str) -> Option<Op> {
+        for o in [Op::Newton, Op::InvSqrt, Op::Gold, Op::Taylor, Op::AExp, Op::Sigmoid, Op::Gelu, Op::GeluD, Op::FixMul] {
+            if o.name() == s {
+                return Some(o);
+            }
+        }
+        None
+    }
+    fn is_pwl(&self) -> bool {
+        matches!(self, Op::AExp | Op::Sigmoid | Op::Gelu | Op::GeluD)
+    }
+}
+
+/// How the initial approximation of the Newton-type operations is supplied.
+#[derive(Clone, Copy, Debug, PartialEq, Eq)]
+enum Approx {
+    /// computed by the operation itself
+    Internal,
+    /// smallest admissible value of the documented contract (intended reading, see `approx_value`)
+    GivenLow,
+    /// largest admissible value of the documented contract (intended reading)
+    GivenHigh,
+    /// InverseSqrt only: the contract exactly as written in the doc comment (on input * a, not input * a^2)
+    LiteralLow,
+    LiteralHigh,
+}
+
+impl Approx {
+    fn name(&self) -> &'static str {
+        match self {
+            Approx::Internal => "internal",
+            Approx::GivenLow => "given-lowest-admissible",
+            Approx::GivenHigh => "given-highest-admissible",
+            Approx::LiteralLow => "given-literal-doc-lowest",
+            Approx::LiteralHigh => "given-literal-doc-highest",
+        }
+    }
+    fn from_name(s: &str) -> Option<Approx> {
+        for a in [Approx::Internal, Approx::GivenLow, Approx::GivenHigh, Approx::LiteralLow, Approx::LiteralHigh] {
+            if a.name() == s {
+                return Some(a);
+            }
+        }
+        None
+    }
+}
+
+#[derive(Clone, Debug)]
+struct Cfg {
+    op: Op,
+    /// INT64 (true) or UINT64 (false); only the Newton-type operations accept UINT64
+    signed: bool,
+    /// iterations | taylor_terms | approximation_log_buckets | debug flag (FixedMultiply) | unused (ApproxExponent)
+    k: u64,
+    /// denominator_cap_2k | fixed_precision_points | precision | fractional_bits
+    p: u64,
+    /// the default of `k` for this `p` (rule of thumb of the doc / value used by the repo's tests)
+    k_default: u64,
+    approx: Approx,
+}
+
+impl Cfg {
+    fn to_json(&self) -> J {
+        json!({"op": self.op.name(), "signed": self.signed, "k": self.k, "p": self.p,
+               "k_default": self.k_default, "approx": self.approx.name()})
+    }
+    fn from_json(j: &J) -> Option<Cfg> {
+        Some(Cfg {
+            op: Op::from_name(j.get("op")?.as_str()?)?,
+            signed: j.get("signed")?.as_bool()?,
+            k: j.get("k")?.as_u64()?,
+            p: j.get("p")?.as_u64()?,
+            k_default: j.get("k_default")?.as_u64()?,
+            approx: Approx::from_name(j.get("approx")?.as_str()?)?,
+        })
+    }
+    fn st(&self) -> ScalarType {
+        if self.signed {
+            INT64
+        } else {
+            UINT64
+        }
+    }
+    fn name(&self) -> String {
+        let st = if self.signed { "i64" } else { "u64" };
+        match self.op {
+            Op::Newton | Op::InvSqrt | Op::Gold => format!(
+                "{}{{iterations={},cap={}}}:{}:approx={}",
+                self.op.name(),
+                self.k,
+                self.p,
+                st,
+                self.approx.name()
+            ),
+            Op::Taylor => format!("TaylorExponent{{taylor_terms={},precision={}}}", self.k, self.p),
+            Op::AExp => format!("ApproxExponent{{precision={}}}", self.p),
+            Op::Sigmoid | Op::Gelu | Op::GeluD => {
+                format!("{}{{precision={},log_buckets={}}}", self.op.name(), self.p, self.k)
+            }
+            Op::FixMul => format!("FixedMultiply{{fractional_bits={},debug={}}}", self.p, self.k == 1),
+        }
+    }
+    fn k_class(&self) -> &'static str {
+        if self.k == self.k_default {
+            "default"
+        } else if self.k + 1 == self.k_default {
+            "default-1"
+        } else {
+            "other"
+        }
+    }
+    /// stable signature of WHAT fails: operation, how the approximation is supplied / parameter class, kind.
+    /// (iterations / taylor_terms are deliberately not part of it: one defect, one signature)
+    fn signature(&self, kind: &str) -> String {
+        match self.op {
+            Op::Newton | Op::InvSqrt | Op::Gold => {
+                format!("C20:{}:approx={}:{}", self.op.name(), self.approx.name(), kind)
+            }
+            Op::Taylor => format!("C20:TaylorExponent:precision={}:{}", self.p, kind),
+            Op::AExp => format!("C20:ApproxExponent:precision={}:{}", self.p, kind),
+            Op::Sigmoid | Op::Gelu | Op::GeluD => {
+                format!("C20:{}:log_buckets={}:precision={}:{}", self.op.name(), self.k, self.p, kind)
+            }
+            Op::FixMul => format!("C20:FixedMultiply:debug={}:{}", self.k == 1, kind),
+        }
+    }
+    /// the table-based PWL operations distinguish a marginal excess over the tabulated number from a gross one
+    fn has_severity_classes(&self) -> bool {
+        matches!(self.op, Op::Sigmoid | Op::Gelu | Op::GeluD)
+    }
+    fn arity(&self) -> usize {
+        let base = match self.op {
+            Op::Gold | Op::FixMul => 2,
+            _ => 1,
+        };
+        base + if self.approx != Approx::Internal { 1 } else { 0 }
+    }
+}
+
+/// rule of thumb of newton_inversion.rs:50 / goldschmidt_division.rs:52: "1 + log(denominator_cap_2k)"
+/// (binary logarithm rounded up; gives the 5 the repo's tests use for cap 10)
+fn newton_default_iterations(cap: u64) -> u64 {
+    let mut l = 0;
+    while (1u64 << l) < cap {
+        l += 1;
+    }
+    1 + l
+}
+
+// ---------------------------------------------------------------------------------------------
+// Exact functions (f64), written independently of the library
+// ---------------------------------------------------------------------------------------------
+
+fn erf_series(z: f64) -> f64 {
+    // erf z = 2/sqrt(pi) * sum_{n>=0} (-1)^n z^(2n+1) / (n! (2n+1)), used for |z| < 2.5 only
+    let z2 = z * z;
+    let mut pow = z;
+    let mut sum = z;
+    for n in 1..300 {
+        pow *= -z2 / n as f64;
+        let c = pow / (2 * n + 1) as f64;
+        sum += c;
+        if c.abs() < 1e-19 {
+            break;
+        }
+    }
+    sum * 2.0 / std::f64::consts::PI.sqrt()
+}
+
+fn erfc_cf(z: f64) -> f64 {
+    // erfc z = exp(-z^2)/sqrt(pi) / (z + (1/2)/(z + (2/2)/(z + (3/2)/(z + ...)))), z >= 2.5
+    let mut f = z;
+    for k in (1..=200).rev() {
+        f = z + (k as f64 / 2.0) / f;
+    }
+    (-z * z).exp() / (std::f64::consts::PI.sqrt() * f)
+}
+
+fn erfc_pos(z: f64) -> f64 {
+    if z < 2.5 {
+        1.0 - erf_series(z)
+    } else {
+        erfc_cf(z)
+    }
+}
+
+/// standard normal CDF
+fn phi_cdf(t: f64) -> f64 {
+    let s = std::f64::consts::SQRT_2;
+    if t >= 0.0 {
+        1.0 - 0.5 * erfc_pos(t / s)
+    } else {
+        0.5 * erfc_pos(-t / s)
+    }
+}
+
+fn phi_pdf(t: f64) -> f64 {
+    (-0.5 * t * t).exp() / (2.0 * std::f64::consts::PI).sqrt()
+}
+
+fn oracle_selfcheck() -> Result<(), String> {
+    let checks: [(f64, f64, &str); 6] = [
+        (erf_series(1.0), 0.842_700_792_949_714_9, "erf(1)"),
+        (erf_series(0.5), 0.520_499_877_813_046_5, "erf(0.5)"),
+        (erfc_cf(3.0), 2.209_049_699_858_544e-5, "erfc(3)"),
+        (1.0 - erf_series(2.5), erfc_cf(2.5), "erfc(2.5) series vs continued fraction"),
+        (phi_cdf(1.959_963_984_540_054), 0.975, "Phi(1.96)"),
+        (phi_cdf(-1.0) + phi_cdf(1.0), 1.0, "Phi symmetry"),
+    ];
+    for (got, want, what) in checks.iter() {
+        if (got - want).abs() > 1e-10 * want.abs().max(1e-3) {
+            return Err(format!("oracle self-check failed: {} = {:e}, expected {:e}", what, got, want));
+        }
+    }
+    Ok(())
+}
+
+/// exact tanh-form GELU of approx_gelu.rs (the function the source tabulates), in f64
+fn gelu_tanh(t: f64) -> f64 {
+    let a = (2.0 / std::f64::consts::PI).sqrt() * (t + 0.044715 * t * t * t);
+    0.5 * t * (1.0 + a.tanh())
+}
+
+/// the closed form of approx_gelu_derivative.rs (the function the source tabulates), in f64
+fn gelud_paper(t: f64) -> f64 {
+    let t3 = t * t * t;
+    let u = 0.0356774 * t3 + 0.797885 * t;
+    0.5 * u.tanh() + 0.5 + (0.0535161 * t3 + 0.398942 * t) / (u.cosh() * u.cosh())
+}
+
+// ---------------------------------------------------------------------------------------------
+// Initial approximations under the documented contracts
+// ---------------------------------------------------------------------------------------------
+
+/// smallest a >= 1 with d * a * a >= t
+fn sqrt_ceil_div(t: i128, d: i128) -> i128 {
+    let mut a = ((t as f64) / (d as f64)).sqrt() as i128;
+    if a < 1 {
+        a = 1;
+    }
+    while d * a * a < t {
+        a += 1;
+    }
+    while a > 1 && d * (a - 1) * (a - 1) >= t {
+        a -= 1;
+    }
+    a
+}
+
+/// largest a with d * a * a <= t (0 if none)
+fn sqrt_floor_div(t: i128, d: i128) -> i128 {
+    let mut a = ((t as f64) / (d as f64)).sqrt() as i128;
+    while d * (a + 1) * (a + 1) <= t {
+        a += 1;
+    }
+    while a > 0 && d * a * a > t {
+        a -= 1;
+    }
+    a
+}
+
+/// The worst admissible initial approximations.
+/// NewtonInversion / GoldschmidtDivision (doc): 2^(cap-1) <= input * a < 2^(cap+1).
+/// InverseSqrt (doc, literal): 2^(2cap-2) <= input * a <= 2^(2cap); the repo's own test
+/// (`test_inverse_sqrt_with_initial_guess`) and the mathematics use input * a^2 in that interval - the
+/// "intended" reading checked by GivenLow/GivenHigh.
+fn approx_value(cfg: &Cfg, d: i64) -> i64 {
+    let d = d as i128;
+    let cap = cfg.p as u32;
+    let v = match (cfg.op, cfg.approx) {
+        (Op::Newton, Approx::GivenLow) | (Op::Gold, Approx::GivenLow) => {
+            let t = 1i128 << (cap - 1);
+            (t + d - 1) / d
+        }
+        (Op::Newton, Approx::GivenHigh) | (Op::Gold, Approx::GivenHigh) => ((1i128 << (cap + 1)) - 1) / d,
+        (Op::InvSqrt, Approx::GivenLow) => sqrt_ceil_div(1i128 << (2 * cap - 2), d),
+        (Op::InvSqrt, Approx::GivenHigh) => sqrt_floor_div(1i128 << (2 * cap), d),
+        (Op::InvSqrt, Approx::LiteralLow) => {
+            let t = 1i128 << (2 * cap - 2);
+            (t + d - 1) / d
+        }
+        (Op::InvSqrt, Approx::LiteralHigh) => (1i128 << (2 * cap)) / d,
+        _ => 0,
+    };
+    v as i64
+}
+
+/// is `a` admissible for divisor d under the contract the mode stands for? (guards the harness itself)
+fn approx_admissible(cfg: &Cfg, d: i64, a: i64) -> bool {
+    let (d, a) = (d as i128, a as i128);
+    let cap = cfg.p as u32;
+    match (cfg.op, cfg.approx) {
+        (Op::Newton, _) | (Op::Gold, _) => (1i128 << (cap - 1)) <= d * a && d * a < (1i128 << (cap + 1)),
+        (Op::InvSqrt, Approx::GivenLow) | (Op::InvSqrt, Approx::GivenHigh) => {
+            (1i128 << (2 * cap - 2)) <= d * a * a && d * a * a <= (1i128 << (2 * cap))
+        }
+        (Op::InvSqrt, _) => (1i128 << (2 * cap - 2)) <= d * a && d * a <= (1i128 << (2 * cap)),
+        _ => true,
+    }
+}
+
+// ---------------------------------------------------------------------------------------------
+// Building and evaluating (real code only)
+// ---------------------------------------------------------------------------------------------
+
+fn build(cfg: &Cfg, n: u64) -> Result<Context, String> {
+    let cfg = cfg.clone();
+    let r = catch(move || -> ciphercore_base::errors::Result<Context> {
+        let c = create_context()?;
+        let g = c.create_graph()?;
+        let t = array_type(vec![n], cfg.st());
+        let mut args = vec![];
+        for _ in 0..cfg.arity() {
+            args.push(g.input(t.clone())?);
+        }
+        let op = match cfg.op {
+            Op::Newton => CustomOperation::new(NewtonInversion { iterations: cfg.k, denominator_cap_2k: cfg.p }),
+            Op::InvSqrt => CustomOperation::new(InverseSqrt { iterations: cfg.k, denominator_cap_2k: cfg.p }),
+            Op::Gold => CustomOperation::new(GoldschmidtDivision { iterations: cfg.k, denominator_cap_2k: cfg.p }),
+            Op::Taylor => CustomOperation::new(TaylorExponent { taylor_terms: cfg.k, fixed_precision_points: cfg.p }),
+            Op::AExp => CustomOperation::new(ApproxExponent { precision: cfg.p }),
+            Op::Sigmoid => CustomOperation::new(ApproxSigmoid { precision: cfg.p, approximation_log_buckets: cfg.k }),
+            Op::Gelu => CustomOperation::new(ApproxGelu { precision: cfg.p, approximation_log_buckets: cfg.k }),
+            Op::GeluD => {
+                CustomOperation::new(ApproxGeluDerivative { precision: cfg.p, approximation_log_buckets: cfg.k })
+            }
+            Op::FixMul => CustomOperation::new(FixedMultiply {
+                config: FixedPrecisionConfig { fractional_bits: cfg.p, debug: cfg.k == 1 },
+            }),
+        };
+        let o = g.custom_op(op, args)?;
+        o.set_as_output()?;
+        g.finalize()?;
+        g.set_as_main()?;
+        c.finalize()?;
+        Ok(c)
+    });
+    match r {
+        Ok(Ok(c)) => Ok(c),
+        Ok(Err(e)) => Err(format!("build error: {}", first_line(&e.to_string()))),
+        Err(p) => Err(format!("build panic: {}", p)),
+    }
+}
+
+/// instantiate + inline + evaluate, as the repo's own tests do (plus inlining)
+fn eval_pipeline(ctx: &Context, inputs: Vec<Value>, seed: u64) -> Result<Value, String> {
+    let c = ctx.clone();
+    let r = catch(move || -> ciphercore_base::errors::Result<Value> {
+        let inst = run_instantiation_pass(c)?.get_context();
+        let inl = inline_operations(
+            &inst,
+            InlineConfig { default_mode: InlineMode::Simple, ..Default::default() },
+        )?
+        .get_context();
+        let mut ev = new_eval(seed);
+        ev.preprocess(&inl)?;
+        ev.evaluate_context(inl, inputs)
+    });
+    match r {
+        Ok(Ok(v)) => Ok(v),
+        Ok(Err(e)) => Err(format!("error: {}", first_line(&e.to_string()))),
+        Err(p) => Err(format!("panic: {}", p)),
+    }
+}
+
+/// the input arrays for a list of points (x, y): column 0 = x, column 1 = y (binary ops), last = approximation
+fn columns(cfg: &Cfg, pts: &[(i64, i64)]) -> Vec<Vec<i64>> {
+    let mut cols = vec![pts.iter().map(|p| p.0).collect::<Vec<i64>>()];
+    if matches!(cfg.op, Op::Gold | Op::FixMul) {
+        cols.push(pts.iter().map(|p| p.1).collect());
+    }
+    if cfg.approx != Approx::Internal {
+        let divisor = |p: &(i64, i64)| if cfg.op == Op::Gold { p.1 } else { p.0 };
+        cols.push(pts.iter().map(|p| approx_value(cfg, divisor(p))).collect());
+    }
+    cols
+}
+
+fn to_value(col: &[i64], st: &ScalarType) -> Value {
+    let e: Vec<u128> = col.iter().map(|x| *x as i128 as u128).collect();
+    vals::arr_value(&e, st)
+}
+
+fn from_value(v: &Value, n: usize, st: &ScalarType) -> Result<Vec<i128>, String> {
+    let t = array_type(vec![n as u64], *st);
+    match vals::arr_elems(v, &t) {
+        Some(e) => Ok(e.iter().map(|x| vals::to_signed(*x, st)).collect()),
+        None => Err("output does not have the layout of the output type".to_string()),
+    }
+}
+
+fn eval_points(cfg: &Cfg, pts: &[(i64, i64)], seed: u64) -> Result<Vec<i128>, String> {
+    let ctx = build(cfg, pts.len() as u64)?;
+    let st = cfg.st();
+    let inputs: Vec<Value> = columns(cfg, pts).iter().map(|c| to_value(c, &st)).collect();
+    let out = eval_pipeline(&ctx, inputs, seed)?;
+    from_value(&out, pts.len(), &st)
+}
+
+// ---------------------------------------------------------------------------------------------
+// Oracle: exact value and tolerance at one point
+// ---------------------------------------------------------------------------------------------
+
+struct Expect {
+    /// exact value in units of the output grid
+    exact: f64,
+    /// admissible |observed - exact| in units of the output grid
+    tol: f64,
+    /// GELU / GELU' only: (value of the closed form the SOURCE tabulates its error against, admissible distance to it)
+    src: Option<(f64, f64)>,
+}
+
+impl Expect {
+    fn new(exact: f64, tol: f64) -> Expect {
+        Expect { exact, tol, src: None }
+    }
+    /// max over the checks of |observed - reference| / tolerance (> 1 means violated)
+    fn ratio(&self, observed: i128) -> f64 {
+        let o = observed as f64;
+        let mut r = (o - self.exact).abs() / self.tol;
+        if let Some((v, t)) = self.src {
+            r = r.max((o - v).abs() / t);
+        }
+        if r.is_nan() {
+            f64::INFINITY
+        } else {
+            r
+        }
+    }
+}
+
+fn table_lookup(tab: &[(u64, f64)], lb: u64) -> f64 {
+    tab.iter().find(|e| e.0 == lb).map(|e| e.1).unwrap_or(f64::NAN)
+}
+
+/// relative residual of exact (real-number) iterations started from the worst start 1/2 of the
+/// internal approximation; only used for iterations = default-1, for which the source states nothing
+fn ideal_residual(cfg: &Cfg) -> f64 {
+    if cfg.k >= cfg.k_default {
+        return 0.0;
+    }
+    match cfg.op {
+        // e_{i+1} = e_i^2, e_0 = 1/2
+        Op::Newton => 0.5f64.powi(1 << cfg.k),
+        // Goldschmidt does iterations-1 refinement rounds
+        Op::Gold => 0.5f64.powi(1 << (cfg.k.max(1) - 1)),
+        // e_{i+1} = (3 e_i^2 - e_i^3) / 2, e_0 = 1/2
+        Op::InvSqrt => {
+            let mut e = 0.5f64;
+            for _ in 0..cfg.k {
+                e = (3.0 * e * e - e * e * e) / 2.0;
+            }
+            e
+        }
+        // Lagrange remainder of exp(y), y in [0, ln 2), after k terms, relative to exp(y) >= 1
+        Op::Taylor => {
+            let mut f = 1.0;
+            for i in 1..=cfg.k {
+                f *= std::f64::consts::LN_2 / i as f64;
+            }
+            f
+        }
+        _ => 0.0,
+    }
+}
+
+fn expect(cfg: &Cfg, pt: (i64, i64), observed: i128) -> Expect {
+    let scale = (1u64 << cfg.p) as f64;
+    let x = pt.0 as f64;
+    match cfg.op {
+        Op::Newton => {
+            let exact = scale / x;
+            Expect::new(exact, NEWTON_UNITS + ROUND_UNITS + ideal_residual(cfg) * exact)
+        }
+        Op::InvSqrt => {
+            let exact = scale / x.sqrt();
+            Expect::new(exact, NEWTON_UNITS + ROUND_UNITS + ideal_residual(cfg) * exact)
+        }
+        Op::Gold => {
+            // 1 % is what the repo's tests assert (on quotients >= 1.8e5 units, where it dominates). The source
+            // states no absolute term; Goldschmidt is not self-correcting: each of the iterations-1 refinement
+            // rounds truncates the running quotient once (< 1 unit each), hence iterations-1 units on top of
+            // the 2 rounding units.
+            let exact = scale * x / pt.1 as f64;
+            Expect::new(exact, (GOLD_REL + ideal_residual(cfg)) * exact + (cfg.k.max(1) - 1) as f64 + ROUND_UNITS)
+        }
+        Op::Taylor => {
+            let exact = (x / scale).exp() * scale;
+            let m = exact.max(observed as f64);
+            Expect::new(exact, (TAYLOR_REL + ideal_residual(cfg)) * (1.0 + m) + ROUND_UNITS)
+        }
+        Op::AExp => {
+            let exact = (x / scale).exp() * scale;
+            let m = exact.max(observed as f64);
+            Expect::new(exact, AEXP_REL * (1.0 + m) + ROUND_UNITS)
+        }
+        Op::Sigmoid => {
+            let exact = scale / (1.0 + (-x / scale).exp());
+            Expect::new(exact, table_lookup(&SIGMOID_TABLE, cfg.k) * scale + ROUND_UNITS)
+        }
+        Op::Gelu | Op::GeluD => {
+            // The tables of the source are measured against closed forms (tanh form of GELU; the formula of
+            // arXiv 2104.02523 for GELU') which the source itself calls approximations. Two checks:
+            // against that closed form with the stated bound, and against the exact function with the stated
+            // bound plus the distance between the closed form and the exact function at this point.
+            let t = x / scale;
+            let (exact, form, tab) = if cfg.op == Op::Gelu {
+                (t * phi_cdf(t) * scale, gelu_tanh(t) * scale, table_lookup(&GELU_TABLE, cfg.k))
+            } else {
+                ((phi_cdf(t) + t * phi_pdf(t)) * scale, gelud_paper(t) * scale, table_lookup(&GELUD_TABLE, cfg.k))
+            };
+            let tol = tab * scale + ROUND_UNITS;
+            Expect { exact, tol: tol + (form - exact).abs(), src: Some((form, tol)) }
+        }
+        Op::FixMul => {
+            // x*y / 2^f exactly; truncation towards zero or floor both stay strictly within one unit
+            let exact = (pt.0 as i128 * pt.1 as i128) as f64 / scale;
+            Expect::new(exact, 1.0 - 1e-9)
+        }
+    }
+}
+
+/// secondary reference: the function the SOURCE tabulates its error against (only differs for GELU / GELU')
+fn source_reference(cfg: &Cfg, pt: (i64, i64)) -> Option<f64> {
+    let scale = (1u64 << cfg.p) as f64;
+    let t = pt.0 as f64 / scale;
+    match cfg.op {
+        Op::Gelu => Some(gelu_tanh(t) * scale),
+        Op::GeluD => Some(gelud_paper(t) * scale),
+        _ => None,
+    }
+}
+
+/// class of behaviour a point exercises (for the distinct-nontrivial count and the non-vacuity counters)
+fn class_of(cfg: &Cfg, pt: (i64, i64)) -> (i64, &'static str) {
+    let bitlen = |v: i64| (64 - (v.max(0) as u64).leading_zeros()) as i64;
+    match cfg.op {
+        // bit length of the input: decides the internal initial approximation
+        Op::Newton | Op::InvSqrt => (bitlen(pt.0), "newton_type_points"),
+        Op::Gold => (bitlen(pt.0) * 100 + bitlen(pt.1), "newton_type_points"),
+        // sign and integer part of x / ln 2
+        Op::Taylor => {
+            let scale = (1u64 << cfg.p) as f64;
+            let xp = (pt.0 as f64 / scale / std::f64::consts::LN_2).floor() as i64;
+            if pt.0 < 0 {
+                (xp, "taylor_negative_points")
+            } else {
+                (xp, "taylor_nonnegative_points")
+            }
+        }
+        // left of the segment / bucket index / right of the segment
+        Op::AExp | Op::Sigmoid | Op::Gelu | Op::GeluD => {
+            let (left, width, lb) = pwl_geometry(cfg);
+            let bucket_w = width >> lb;
+            let s = pt.0 - left;
+            if s < 0 {
+                (-1, "pwl_left_points")
+            } else if s >= width {
+                (1 << 20, "pwl_right_points")
+            } else {
+                (s / bucket_w, "pwl_main_points")
+            }
+        }
+        Op::FixMul => (pt.0.signum() * 3 + pt.1.signum(), "fixed_multiply_points"),
+    }
+}
+
+/// (left end, width, log_buckets) of the approximated segment in input-grid units
+fn pwl_geometry(cfg: &Cfg) -> (i64, i64, u64) {
+    let one = 1i64 << cfg.p;
+    match cfg.op {
+        Op::AExp => (-16 * one, 32 * one, 6),
+        Op::Sigmoid => (-8 * one, 16 * one, cfg.k),
+        _ => (-4 * one, 8 * one, cfg.k),
+    }
+}
+
+// ---------------------------------------------------------------------------------------------
+// Grids
+// ---------------------------------------------------------------------------------------------
+
+struct Grid {
+    pts: Vec<(i64, i64)>,
+    what: String,
+    /// the whole documented domain at this precision?
+    full: bool,
+}
+
+fn dedup_sorted(mut v: Vec<i64>) -> Vec<i64> {
+    v.sort();
+    v.dedup();
+    v
+}
+
+fn unary(v: Vec<i64>) -> Vec<(i64, i64)> {
+    v.into_iter().map(|x| (x, 0)).collect()
+}
+
+/// how much of the documented domain a configuration sweeps
+#[derive(Clone, Copy, Debug, PartialEq, Eq)]
+enum Level {
+    /// every representable input of the documented domain
+    Full,
+    /// a prefix / strided sub-grid plus neighbourhoods of the critical points (cost reasons; stated in the evidence)
+    Reduced,
+}
+
+/// all x in (0, hi) [Full]; or the prefix (0, prefix] plus +-8 around every power of two below hi
+/// (where the internal initial approximation changes and is worst) [Reduced]
+fn positive_domain(hi: i64, level: Level, prefix: i64) -> (Vec<i64>, String, bool) {
+    if level == Level::Full || hi - 1 <= prefix {
+        ((1..hi).collect(), format!("all x in (0, {})", hi), true)
+    } else {
+        let mut v: Vec<i64> = (1..=prefix).collect();
+        let mut p = 1i64;
+        while p <= hi {
+            for d in -8..=8 {
+                let x = p + d;
+                if x >= 1 && x < hi {
+                    v.push(x);
+                }
+            }
+            p *= 2;
+        }
+        (
+            dedup_sorted(v),
+            format!("all x in (0, {}] plus +-8 around every power of two up to {} (domain (0, {}))", prefix, hi, hi),
+            false,
+        )
+    }
+}
+
+/// [lo, hi] completely [Full]; or every stride-th point plus +-16 around the given marks [Reduced]
+fn signed_domain(lo: i64, hi: i64, level: Level, stride: i64, marks: &[i64], marks_what: &str) -> (Vec<i64>, String, bool) {
+    if level == Level::Full {
+        ((lo..=hi).collect(), format!("all x in [{}, {}]", lo, hi), true)
+    } else {
+        let mut v = vec![];
+        for m in marks.iter().chain([lo + 16, hi - 16, 0].iter()) {
+            for d in -16..=16 {
+                let x = m + d;
+                if x >= lo && x <= hi {
+                    v.push(x);
+                }
+            }
+        }
+        let mut x = lo;
+        while x <= hi {
+            v.push(x);
+            x += stride;
+        }
+        (
+            dedup_sorted(v),
+            format!("x in [{}, {}]: every {}th point and +-16 around {}, 0 and both ends", lo, hi, stride, marks_what),
+            false,
+        )
+    }
+}
+
+fn grid(cfg: &Cfg, level: Level, thorough: bool) -> Grid {
+    match cfg.op {
+        Op::Newton => {
+            // doc: input in (0, 2^(cap-1))
+            let (v, what, full) = positive_domain(1i64 << (cfg.p - 1), level, 1 << 11);
+            Grid { pts: unary(v), what, full }
+        }
+        Op::InvSqrt => {
+            // doc: input in (0, 2^(2cap-1)) and less than 2^21
+            let hi = (1i64 << (2 * cfg.p - 1)).min(1 << 21);
+            let (v, what, full) = positive_domain(hi, level, 1 << 11);
+            Grid { pts: unary(v), what, full }
+        }
+        Op::Gold => {
+            // doc: both inputs in (0, 2^(cap-1))
+            let hi = 1i64 << (cfg.p - 1);
+            if level == Level::Full {
+                let mut pts = vec![];
+                for n in 1..hi {
+                    for d in 1..hi {
+                        pts.push((n, d));
+                    }
+                }
+                Grid { pts, what: format!("all (dividend, divisor) in (0, {})^2", hi), full: true }
+            } else {
+                let (ds, what, _) = positive_domain(hi, Level::Reduced, if thorough { 1 << 12 } else { 1 << 9 });
+                let ns = [1, 3, hi / 2 + 1, hi - 1];
+                let mut pts = vec![];
+                for n in ns {
+                    for d in ds.iter() {
+                        pts.push((n, *d));
+                    }
+                }
+                Grid { pts, what: format!("dividends {:?} x divisors: {}", ns, what), full: false }
+            }
+        }
+        Op::Taylor => {
+            // no domain in the doc comment; the comments in the code give the limits: results below 2^31
+            // ("the exponent is limited from above by 31 - fixed_precision_points") and "if x is smaller than
+            // -10, return 0"; swept: [-16, (31-p) ln 2)
+            let one = 1i64 << cfg.p;
+            let hi = (((31 - cfg.p) as f64) * std::f64::consts::LN_2 * one as f64).floor() as i64 - 1;
+            let hi = hi.min(16 * one);
+            let lo = -16 * one;
+            // where the integer part of x / ln 2 changes; the cut-off of small results
+            let mut marks = vec![-10 * one, (-10.0 * std::f64::consts::LN_2 * one as f64).round() as i64];
+            for j in -24..24 {
+                marks.push((j as f64 * std::f64::consts::LN_2 * one as f64).round() as i64);
+            }
+            let stride = match (cfg.p, thorough) {
+                (10, _) => 17,
+                (_, true) => 127,
+                (_, false) => 1021,
+            };
+            let (v, what, full) =
+                signed_domain(lo, hi, level, stride, &marks, "every multiple of ln 2, -10 and -10 ln 2 (cut-off)");
+            Grid { pts: unary(v), what, full }
+        }
+        Op::AExp | Op::Sigmoid | Op::Gelu | Op::GeluD => {
+            let one = 1i64 << cfg.p;
+            let (lo, hi) = (-16 * one, 16 * one);
+            let (left, width, lb) = pwl_geometry(cfg);
+            let bw = width >> lb;
+            let mut marks = vec![];
+            let mut b = left - bw;
+            while b <= left + width + bw {
+                marks.push(b);
+                marks.push(b + bw / 2);
+                b += bw;
+            }
+            let stride = match (cfg.p, thorough) {
+                (10, _) => 13,
+                (_, true) => 61,
+                (_, false) => 509,
+            };
+            let (v, what, full) = signed_domain(lo, hi, level, stride, &marks, "every bucket boundary and bucket middle");
+            Grid { pts: unary(v), what, full }
+        }
+        Op::FixMul => {
+            if cfg.k == 1 {
+                // debug mode (overflow assertion) costs ~70 ms per pair: 7 x 7 values that must not trip it
+                let s = [0i64, 1, -1, 1023, -1023, (1 << 20) + 1, -(1 << 20) - 1];
+                let mut pts = vec![];
+                for x in s {
+                    for y in s {
+                        pts.push((x, y));
+                    }
+                }
+                Grid { pts, what: format!("all pairs over {:?}", s), full: true }
+            } else if cfg.p <= 4 {
+                let mut pts = vec![];
+                for x in -128..128 {
+                    for y in -128..128 {
+                        pts.push((x, y));
+                    }
+                }
+                Grid { pts, what: "all (x, y) in [-128, 127]^2".to_string(), full: true }
+            } else {
+                let mut s = vec![0i64];
+                for j in 0..=20 {
+                    for d in -1..=1 {
+                        let v = (1i64 << j) + d;
+                        s.push(v);
+                        s.push(-v);
+                    }
+                }
+                let s = dedup_sorted(s);
+                let mut pts = vec![];
+                for x in s.iter() {
+                    for y in s.iter() {
+                        pts.push((*x, *y));
+                    }
+                }
+                Grid {
+                    pts,
+                    what: format!("all pairs over the {} values +-(2^j + {{-1,0,1}}), j <= 20, and 0", s.len()),
+                    full: true,
+                }
+            }
+        }
+    }
+}
+
+// ---------------------------------------------------------------------------------------------
+// Configuration list (cost per point measured: internal initial approximation 0.7-1 ms, PWL 0.3-0.7 ms,
+// TaylorExponent 2.7 ms, supplied approximation ~1 us - the levels below are chosen from these numbers)
+// ---------------------------------------------------------------------------------------------
+
+fn configs(thorough: bool) -> Vec<(Cfg, Level)> {
+    use Level::*;
+    let mut out = vec![];
+    // NewtonInversion: caps 10, 13, 17 (documented domains (0,2^9), (0,2^12), (0,2^16)), thorough also 20
+    let newton_caps: &[u64] = if thorough { &[10, 13, 17, 20] } else { &[10, 13, 17] };
+    for &cap in newton_caps {
+        let kd = newton_default_iterations(cap);
+        for signed in [true, false] {
+            for k in [kd, kd - 1] {
+                // supplied approximations are cheap: always the full domain
+                for approx in [Approx::GivenLow, Approx::GivenHigh] {
+                    out.push((Cfg { op: Op::Newton, signed, k, p: cap, k_default: kd, approx }, Full));
+                }
+                let level = match (cap, thorough) {
+                    (10, _) => Full,
+                    (13, _) => if thorough || (signed && k == kd) { Full } else { Reduced },
+                    (17, true) => Full,
+                    (20, true) => if signed && k == kd { Full } else { Reduced },
+                    _ => Reduced,
+                };
+                if level == Reduced && !(signed && k == kd) && !(cap == 13) {
+                    continue;
+                }
+                out.push((Cfg { op: Op::Newton, signed, k, p: cap, k_default: kd, approx: Approx::Internal }, level));
+            }
+        }
+    }
+    // InverseSqrt: caps 6, 8, 10 (domains (0,2^11), (0,2^15), (0,2^19)), thorough also 11 ((0,2^21))
+    let isqrt_caps: &[u64] = if thorough { &[6, 8, 10, 11] } else { &[6, 8, 10] };
+    for &cap in isqrt_caps {
+        // no rule of thumb in the doc; the repo's tests use 5 iterations at cap 10
+        let kd = 5;
+        for signed in [true, false] {
+            for k in [kd, kd - 1] {
+                for approx in [Approx::GivenLow, Approx::GivenHigh, Approx::LiteralLow, Approx::LiteralHigh] {
+                    let literal = matches!(approx, Approx::LiteralLow | Approx::LiteralHigh);
+                    // the literal reading of the doc is only swept for the small caps and cap 10 (same defect everywhere)
+                    if cap == 11 && (literal || !signed) {
+                        continue;
+                    }
+                    let level = if cap >= 10 && !thorough { Reduced } else { Full };
+                    out.push((Cfg { op: Op::InvSqrt, signed, k, p: cap, k_default: kd, approx }, level));
+                }
+                let level = match (cap, thorough) {
+                    (6, _) => Full,
+                    (8, true) => Full,
+                    (10, true) => if signed && k == kd { Full } else { Reduced },
+                    _ => Reduced,
+                };
+                if level == Reduced && !(signed && k == kd) && !(!signed && k != kd) {
+                    continue;
+                }
+                out.push((Cfg { op: Op::InvSqrt, signed, k, p: cap, k_default: kd, approx: Approx::Internal }, level));
+            }
+        }
+    }
+    // GoldschmidtDivision: caps 7, 10 (all pairs of (0,2^6)^2, (0,2^9)^2), thorough also 16 (reduced)
+    let gold_caps: &[u64] = if thorough { &[7, 10, 16] } else { &[7, 10] };
+    for &cap in gold_caps {
+        let kd = newton_default_iterations(cap);
+        for signed in [true, false] {
+            for k in [kd, kd - 1] {
+                for approx in [Approx::GivenLow, Approx::GivenHigh] {
+                    let level = if cap <= 10 { Full } else { Reduced };
+                    out.push((Cfg { op: Op::Gold, signed, k, p: cap, k_default: kd, approx }, level));
+                }
+                let level = match (cap, thorough) {
+                    (7, _) => Full,
+                    (10, true) => if (signed && k == kd) || (!signed && k != kd) { Full } else { Reduced },
+                    _ => Reduced,
+                };
+                if level == Reduced && !(signed && k == kd) {
+                    continue;
+                }
+                out.push((Cfg { op: Op::Gold, signed, k, p: cap, k_default: kd, approx: Approx::Internal }, level));
+            }
+        }
+    }
+    // TaylorExponent
+    for p in [10u64, 15] {
+        for k in [5u64, 4] {
+            let level = if p == 10 && thorough { Full } else { Reduced };
+            if p == 15 && k == 4 && !thorough {
+                continue;
+            }
+            out.push((Cfg { op: Op::Taylor, signed: true, k, p, k_default: 5, approx: Approx::Internal }, level));
+        }
+    }
+    // piecewise-linear operations
+    for p in [10u64, 15] {
+        let lvl = |default_buckets: bool, heavy: bool| -> Level {
+            if p == 10 {
+                if thorough || default_buckets { Full } else { Reduced }
+            } else if thorough && heavy {
+                Full
+            } else {
+                Reduced
+            }
+        };
+        out.push((Cfg { op: Op::AExp, signed: true, k: 6, p, k_default: 6, approx: Approx::Internal }, lvl(true, true)));
+        for op in [Op::Sigmoid, Op::Gelu, Op::GeluD] {
+            for lb in [5u64, 4, 6] {
+                if p == 15 && lb != 5 && !thorough {
+                    continue;
+                }
+                let level = lvl(lb == 5, lb == 5 || (op == Op::Gelu && lb == 6));
+                out.push((Cfg { op, signed: true, k: lb, p, k_default: 5, approx: Approx::Internal }, level));
+            }
+        }
+    }
+    // fixed-point product
+    out.push((Cfg { op: Op::FixMul, signed: true, k: 0, p: 4, k_default: 0, approx: Approx::Internal }, Full));
+    out.push((Cfg { op: Op::FixMul, signed: true, k: 0, p: 10, k_default: 0, approx: Approx::Internal }, Full));
+    out.push((Cfg { op: Op::FixMul, signed: true, k: 0, p: 15, k_default: 0, approx: Approx::Internal }, Full));
+    out.push((Cfg { op: Op::FixMul, signed: true, k: 1, p: 10, k_default: 0, approx: Approx::Internal }, Full));
+    out
+}
+
+// ---------------------------------------------------------------------------------------------
+// Sweep
+// ---------------------------------------------------------------------------------------------
+
+#[derive(Clone, Debug)]
+struct Bad {
+    pt: (i64, i64),
+    observed: i128,
+    exact: f64,
+    tol: f64,
+    src: Option<(f64, f64)>,
+}
+
+const PLAIN_KIND: &str = "error-above-stated-bound";
+/// TaylorExponent: results flushed to zero between the documented cut-off -10 and the actual one -10 ln 2
+const TAYLOR_WINDOW_KIND: &str = "flushed-to-zero-in-(-10,-10ln2]";
+/// number of violation kinds per configuration (PWL: 3 regions x 2 severities)
+const KINDS: usize = 6;
+const PWL_KINDS: [&str; KINDS] = [
+    "inside-segment:marginally-above-stated-bound(<=1.25x)",
+    "inside-segment:far-above-stated-bound(>1.25x)",
+    "left-of-segment:marginally-above-stated-bound(<=1.25x)",
+    "left-of-segment:far-above-stated-bound(>1.25x)",
+    "right-of-segment:marginally-above-stated-bound(<=1.25x)",
+    "right-of-segment:far-above-stated-bound(>1.25x)",
+];
+
+/// Kind of a violation = the part of the signature that says where / how badly it fails, so that a recorded
+/// finding does not hide a different failure of the same configuration.
+/// table-based PWL operations: region (inside the approximated segment [left, right) / left / right of it)
+/// x severity (up to 1.25 x the tolerance / above); TaylorExponent: cut-off window / elsewhere.
+fn kind_of(cfg: &Cfg, pt: (i64, i64), observed: i128, ratio: f64) -> usize {
+    if cfg.has_severity_classes() {
+        let (left, width, _) = pwl_geometry(cfg);
+        let region = if pt.0 < left {
+            1
+        } else if pt.0 >= left + width {
+            2
+        } else {
+            0
+        };
+        region * 2 + if ratio <= 1.25 { 0 } else { 1 }
+    } else if cfg.op == Op::Taylor {
+        let one = (1u64 << cfg.p) as f64;
+        let x = pt.0 as f64;
+        if observed == 0 && x >= -10.0 * one && x <= -10.0 * std::f64::consts::LN_2 * one + 1.0 {
+            0
+        } else {
+            1
+        }
+    } else {
+        1
+    }
+}
+
+fn kind_name(cfg: &Cfg, kind: usize) -> &'static str {
+    if cfg.has_severity_classes() {
+        PWL_KINDS[kind]
+    } else if cfg.op == Op::Taylor && kind == 0 {
+        TAYLOR_WINDOW_KIND
+    } else {
+        PLAIN_KIND
+    }
+}
+
+#[derive(Clone, Debug, Default)]
+struct ChunkStat {
+    n: u64,
+    nontrivial: u64,
+    /// max |observed - exact| in units, its argument and the tolerance there
+    max_err: f64,
+    max_err_at: (i64, i64),
+    max_err_tol: f64,
+    /// max of |observed - exact| / tol
+    max_ratio: f64,
+    max_ratio_at: (i64, i64),
+    /// max |observed - source's own reference| (GELU / GELU' only)
+    max_err_src: f64,
+    /// violations per kind (see `kind_of`): count and the worst one (largest error / tolerance; first on ties)
+    n_bad: [u64; KINDS],
+    worst_bad: [Option<(f64, Bad)>; KINDS],
+    classes: BTreeSet<i64>,
+    counters: Vec<(&'static str, u64)>,
+    error: Option<String>,
+}
+
+fn bump(c: &mut Vec<(&'static str, u64)>, k: &'static str) {
+    if let Some(e) = c.iter_mut().find(|e| e.0 == k) {
+        e.1 += 1;
+    } else {
+        c.push((k, 1));
+    }
+}
+
+fn run_chunk(cfg: &Cfg, pts: &[(i64, i64)], seed: u64) -> ChunkStat {
+    let mut st = ChunkStat { n: pts.len() as u64, ..Default::default() };
+    let res = eval_points(cfg, pts, seed);
+    let out = match res {
+        Ok(o) => o,
+        Err(e) => {
+            st.error = Some(e);
+            return st;
+        }
+    };
+    for (i, pt) in pts.iter().enumerate() {
+        let obs = out[i];
+        let e = expect(cfg, *pt, obs);
+        let err = (obs as f64 - e.exact).abs();
+        let ratio = e.ratio(obs);
+        if err > st.max_err || i == 0 {
+            st.max_err = err;
+            st.max_err_at = *pt;
+            st.max_err_tol = e.tol;
+        }
+        if ratio > st.max_ratio || i == 0 {
+            st.max_ratio = ratio;
+            st.max_ratio_at = *pt;
+        }
+        if let Some(s) = source_reference(cfg, *pt) {
+            let es = (obs as f64 - s).abs();
+            if es > st.max_err_src {
+                st.max_err_src = es;
+            }
+        }
+        if !(ratio <= 1.0) {
+            let sev = kind_of(cfg, *pt, obs, ratio);
+            st.n_bad[sev] += 1;
+            if st.worst_bad[sev].as_ref().map(|w| ratio > w.0).unwrap_or(true) {
+                st.worst_bad[sev] =
+                    Some((ratio, Bad { pt: *pt, observed: obs, exact: e.exact, tol: e.tol, src: e.src }));
+            }
+        }
+        if obs != 0 || e.exact.abs() >= 0.5 {
+            st.nontrivial += 1;
+        }
+        let (cl, counter) = class_of(cfg, *pt);
+        st.classes.insert(cl);
+        bump(&mut st.counters, counter);
+        if cfg.approx != Approx::Internal {
+            bump(&mut st.counters, "points_with_given_approximation");
+        }
+        if cfg.op.is_pwl() {
+            let (left, width, lb) = pwl_geometry(cfg);
+            let bw = width >> lb;
+            let s = pt.0 - left;
+            if s.rem_euclid(bw) == 0 || s.rem_euclid(bw) == bw - 1 {
+                bump(&mut st.counters, "pwl_bucket_boundary_points");
+            }
+        }
+    }
+    st
+}
+
+fn chunk_size(cfg: &Cfg) -> usize {
+    // balanced against the measured cost per point (largest job a few seconds)
+    if cfg.op == Op::Taylor {
+        1 << 10
+    } else if cfg.op.is_pwl() || (cfg.approx == Approx::Internal && cfg.op != Op::FixMul) {
+        1 << 12
+    } else {
+        1 << 16
+    }
+}
+
+fn bad_case(cfg: &Cfg, b: &Bad) -> J {
+    json!({
+        "kind": "plain",
+        "cfg": cfg.to_json(),
+        "pt": [b.pt.0, b.pt.1],
+        "initial_approximation": if cfg.approx != Approx::Internal {
+            json!(approx_value(cfg, if cfg.op == Op::Gold { b.pt.1 } else { b.pt.0 }))
+        } else { J::Null },
+        "observed": b.observed.to_string(),
+        "exact_in_grid_units": b.exact,
+        "tolerance_in_grid_units": b.tol,
+        "source_closed_form_and_tolerance": match b.src { Some((v, t)) => json!([v, t]), None => J::Null },
+    })
+}
+
+pub fn run(r: &Report) -> i32 {
+    if let Err(e) = oracle_selfcheck() {
+        println!("MACHINERY-ERROR property=C20 {}", e);
+        return 2;
+    }
+    let thorough = r.tier.thorough();
+    let debug = std::env::var("C20_DEBUG").is_ok();
+    let mut cfgl = configs(thorough);
+    if let Ok(f) = std::env::var("C20_ONLY") {
+        cfgl.retain(|c| c.0.name().contains(&f));
+    }
+    let grids: Vec<Grid> = cfgl.par_iter().map(|c| grid(&c.0, c.1, thorough)).collect();
+    let cfgs: Vec<Cfg> = cfgl.iter().map(|c| c.0.clone()).collect();
+
+    // harness self-guard: every supplied approximation must satisfy the contract it stands for
+    for (c, g) in cfgs.iter().zip(grids.iter()) {
+        if c.approx != Approx::Internal {
+            for pt in g.pts.iter() {
+                let d = if c.op == Op::Gold { pt.1 } else { pt.0 };
+                if !approx_admissible(c, d, approx_value(c, d)) {
+                    println!(
+                        "MACHINERY-ERROR property=C20 inadmissible initial approximation generated for {} at {}",
+                        c.name(),
+                        d
+                    );
+                    return 2;
+                }
+            }
+        }
+    }
+
+    // jobs = (configuration, chunk), evaluated in parallel, merged in enumeration order
+    let mut jobs: Vec<(usize, usize, usize)> = vec![];
+    for (ci, g) in grids.iter().enumerate() {
+        let cs = chunk_size(&cfgs[ci]);
+        let mut a = 0;
+        while a < g.pts.len() {
+            let b = (a + cs).min(g.pts.len());
+            jobs.push((ci, a, b));
+            a = b;
+        }
+    }
+    let seed = r.seed;
+    let stats: Vec<ChunkStat> =
+        jobs.par_iter().map(|(ci, a, b)| run_chunk(&cfgs[*ci], &grids[*ci].pts[*a..*b], seed)).collect();
+
+    let mut measured = vec![];
+    let mut all_full = true; // all configurations on the full documented domain?
+    let mut ji = 0;
+    for (ci, cfg) in cfgs.iter().enumerate() {
+        let g = &grids[ci];
+        let mut tot = ChunkStat::default();
+        let mut first = true;
+        while ji < jobs.len() && jobs[ji].0 == ci {
+            let s = &stats[ji];
+            ji += 1;
+            r.count("graph_evaluations", 1);
+            tot.n += s.n;
+            tot.nontrivial += s.nontrivial;
+            if let Some(e) = &s.error {
+                if tot.error.is_none() {
+                    tot.error = Some(e.clone());
+                }
+                continue;
+            }
+            if first || s.max_err > tot.max_err {
+                tot.max_err = s.max_err;
+                tot.max_err_at = s.max_err_at;
+                tot.max_err_tol = s.max_err_tol;
+            }
+            if first || s.max_ratio > tot.max_ratio {
+                tot.max_ratio = s.max_ratio;
+                tot.max_ratio_at = s.max_ratio_at;
+            }
+            first = false;
+            tot.max_err_src = tot.max_err_src.max(s.max_err_src);
+            for sev in 0..KINDS {
+                tot.n_bad[sev] += s.n_bad[sev];
+                if let Some(w) = &s.worst_bad[sev] {
+                    if tot.worst_bad[sev].as_ref().map(|t| w.0 > t.0).unwrap_or(true) {
+                        tot.worst_bad[sev] = Some(w.clone());
+                    }
+                }
+            }
+            for c in s.classes.iter() {
+                r.distinct_str(&format!("{}|class{}", cfg.name(), c));
+            }
+            for (k, v) in s.counters.iter() {
+                r.count(k, *v);
+            }
+        }
+        r.count("evaluations", tot.n);
+        r.count("configurations", 1);
+        r.count("points_nontrivial", tot.nontrivial);
+        if !g.full {
+            all_full = false;
+            r.count("configurations_on_reduced_grid", 1);
+        }
+        if cfg.k != cfg.k_default {
+            r.count("points_nondefault_parameter", tot.n);
+        }
+        if r.want_sample() {
+            r.sample(json!({"configuration": cfg.name(), "grid": g.what, "points": tot.n}));
+        }
+        let mut m = json!({
+            "configuration": cfg.name(),
+            "grid": g.what,
+            "grid_level": if g.full { "full documented domain" } else { "reduced" },
+            "points": tot.n,
+            "max_abs_error_units": tot.max_err,
+            "argmax": [tot.max_err_at.0, tot.max_err_at.1],
+            "tolerance_at_argmax_units": tot.max_err_tol,
+            "max_error_over_tolerance": tot.max_ratio,
+            "argmax_ratio": [tot.max_ratio_at.0, tot.max_ratio_at.1],
+            "points_over_tolerance": tot.n_bad.iter().sum::<u64>(),
+        });
+        if source_reference(cfg, (0, 0)).is_some() {
+            m["max_abs_error_vs_source_reference_units"] = json!(tot.max_err_src);
+        }
+        if debug {
+            eprintln!(
+                "{:70} n={:8} max_err={:12.3} at {:?} tol={:9.3} ratio={:9.3} at {:?} bad={:?} src={:.3} {}",
+                cfg.name(),
+                tot.n,
+                tot.max_err,
+                tot.max_err_at,
+                tot.max_err_tol,
+                tot.max_ratio,
+                tot.max_ratio_at,
+                tot.n_bad,
+                tot.max_err_src,
+                tot.error.clone().unwrap_or_default()
+            );
+        }
+        if let Some(e) = &tot.error {
+            m["error"] = json!(e);
+            r.violation(
+                &cfg.signature("evaluation-failed"),
+                &format!("{} cannot be built/evaluated on its documented domain: {}", cfg.name(), e),
+                json!({"kind": "plain-error", "cfg": cfg.to_json(), "grid": g.what, "full_grid": g.full, "error": e}),
+            );
+        }
+        for sev in 0..KINDS {
+            if let Some((_, b)) = &tot.worst_bad[sev] {
+                r.count("violating_cases", tot.n_bad[sev] - 1);
+                let vs_src = match b.src {
+                    Some((v, t)) => format!(
+                        " (closed form tabulated by the source: {:.3}, distance {:.3}, stated bound + rounding {:.3})",
+                        v, (b.observed as f64 - v).abs(), t
+                    ),
+                    None => String::new(),
+                };
+                r.violation(
+                    &cfg.signature(kind_name(cfg, sev)),
+                    &format!(
+                        "{} [parameter: {}]: at input {:?} the result {} differs from the exact value {:.3} by {:.3} grid units, allowed {:.3}{}; {} of {} swept points exceed the bound (this kind; the worst one is shown), maximum absolute error of the configuration {:.3} at {:?}",
+                        cfg.name(), cfg.k_class(), b.pt, b.observed, b.exact, (b.observed as f64 - b.exact).abs(), b.tol, vs_src,
+                        tot.n_bad[sev], tot.n, tot.max_err, tot.max_err_at
+                    ),
+                    bad_case(cfg, b),
+                );
+            }
+        }
+        measured.push(m);
+    }
+    r.extra("measured_per_configuration", J::Array(measured));
+
+    if std::env::var("C20_NOSECURE").is_err() {
+        secure_part(r, debug);
+    }
+
+    r.extra("all_configurations_on_full_documented_domain", json!(all_full));
+    r.finish(
+        "exploration",
+        "per configuration (operation x parameters incl. default and default-1 iterations/terms and log_buckets 4,5,6 x INT64/UINT64 x \
+         internal / lowest / highest admissible supplied initial approximation) every representable input of the documented domain \
+         (NewtonInversion/GoldschmidtDivision: (0,2^(cap-1)) resp. its square; InverseSqrt: (0,min(2^(2cap-1),2^21)); PWL operations: \
+         [-16,16]; TaylorExponent: [-16,(31-p)ln2); FixedMultiply: product grids) is evaluated as arrays through \
+         instantiate+inline+SimpleEvaluator and compared point-wise with the f64 exact function. Configurations marked 'reduced' in \
+         measured_per_configuration (cost: 0.3-1 ms per point for bit-level initial approximations / PWL selection) sweep an explicitly \
+         listed sub-grid instead: a prefix of the domain or every n-th point plus +-8/+-16 neighbourhoods of all critical points (powers of \
+         two, bucket boundaries and middles, multiples of ln 2, cut-offs, domain ends). Tolerance = bound stated by the source (sigmoid/gelu/gelu' \
+         tables, +-1 unit Newton/InverseSqrt, 1% Goldschmidt/Taylor, 5% ApproxExponent in the tests' own metric) + 2 grid units; Goldschmidt \
+         additionally iterations-1 units (one truncation of the running quotient per round); for default-1 iterations/terms, where the \
+         source states nothing, the analytic residual of exact iterations from the worst internal start (1/2) is added; GELU/GELU': checked \
+         against the closed form the source tabulates with the stated bound AND against the exact function with that bound plus the \
+         distance of the closed form; FixedMultiply: strictly less than 1 unit from x*y/2^f. \
+         distinct = (configuration, behaviour class: bit length of the input / PWL bucket or side / integer part of x/ln2 / sign pair). \
+         Secure part: REGRESSION ORACLE only - compiled (party-owned inputs, output revealed to party 0, global-mode execution through E1, \
+         real randomness with fixed seeds) vs plaintext on sub-grids of 2^8 (quick) / 2^9-2^10 (thorough) points, bound = 2 x maximum \
+         measured on the unchanged tree",
+        true,
+        &[
+            "nothing is sampled and no cap cuts an enumeration short; configurations on reduced grids (counter configurations_on_reduced_grid, listed in measured_per_configuration) are exhaustive over the listed sub-grid only, not over their documented domain",
+            "tolerances are the source's own stated/tested bounds plus 2 grid units; the property itself gives no number",
+            "GELU oracle is the exact x*Phi(x) (erf by power series / continued fraction, self-checked against known values)",
+            "TaylorExponent has no documented domain; [-16, (31-p) ln 2) is taken from the comments in the code",
+            "InverseSqrt's documented contract for a supplied approximation is checked in the literal reading (input*a) and in the reading its test uses (input*a^2)",
+            "secure-vs-plaintext bounds are frozen measurements (regression oracle), not a claim of the source; three-party execution is not repeated here (C01/C02/C05)",
+        ],
+        &[
+            "evaluations",
+            "points_nontrivial",
+            "points_with_given_approximation",
+            "points_nondefault_parameter",
+            "pwl_main_points",
+            "pwl_left_points",
+            "pwl_right_points",
+            "pwl_bucket_boundary_points",
+            "taylor_negative_points",
+            "newton_type_points",
+            "fixed_multiply_points",
+            "secure_points",
+            "secure_points_differing_from_plaintext",
+        ],
+    )
+}
+
+// ---------------------------------------------------------------------------------------------
+// Compiled secure versions vs plaintext (regression oracle)
+// ---------------------------------------------------------------------------------------------
+
+/// metric of the secure-vs-plaintext deviation
+#[derive(Clone, Copy, PartialEq, Eq, Debug)]
+enum Metric {
+    /// |secure - plain| in grid units
+    Units,
+    /// (|secure - plain| - 2 units, if positive) / (1 + max(|secure|, |plain|)) in parts per million
+    /// (exponential: values span 12 orders of magnitude, a deviation in units says nothing)
+    RelPpm,
+}
+
+struct SecureCase {
+    cfg: Cfg,
+    pts: Vec<(i64, i64)>,
+    what: String,
+    metric: Metric,
+}
+
+fn secure_cases(thorough: bool) -> Vec<SecureCase> {
+    let mut out = vec![];
+    // points per case: 2^8 (quick) / 2^10 (thorough; Newton: its whole domain, 2^9 - 1)
+    let n: i64 = if thorough { 1024 } else { 256 };
+    let step = 1024 / n;
+    // ApproxSigmoid precision 10, 5 log-buckets: points spread over [-16, 16) hitting many residues mod the bucket width
+    let pts: Vec<(i64, i64)> = (0..n).map(|j| j * step).map(|i| (-16384 + 32 * i + (7 * i) % 32, 0)).collect();
+    out.push(SecureCase {
+        cfg: Cfg { op: Op::Sigmoid, signed: true, k: 5, p: 10, k_default: 5, approx: Approx::Internal },
+        pts,
+        what: format!("x_i = -16384 + 32 i + (7 i mod 32), i = 0, {}, .. < 1024", step),
+        metric: Metric::Units,
+    });
+    // NewtonInversion cap 10, 5 iterations: the documented domain (0, 512) (quick: odd x only)
+    let nstep = if thorough { 1 } else { 2 };
+    out.push(SecureCase {
+        cfg: Cfg { op: Op::Newton, signed: true, k: 5, p: 10, k_default: 5, approx: Approx::Internal },
+        pts: (1..512i64).step_by(nstep).map(|x| (x, 0)).collect(),
+        what: format!("x = 1, {}, .. < 512", 1 + nstep),
+        metric: Metric::Units,
+    });
+    // GoldschmidtDivision cap 10, 5 iterations: m x m pairs
+    let m: i64 = if thorough { 32 } else { 16 };
+    let gs = 32 / m;
+    let vs: Vec<i64> = (0..m).map(|j| j * gs).map(|j| 1 + 16 * j + (5 * j) % 16).filter(|v| *v < 512).collect();
+    let mut pts = vec![];
+    for a in vs.iter() {
+        for d in vs.iter() {
+            pts.push((*a, *d));
+        }
+    }
+    out.push(SecureCase {
+        cfg: Cfg { op: Op::Gold, signed: true, k: 5, p: 10, k_default: 5, approx: Approx::Internal },
+        pts,
+        what: format!("(dividend, divisor) over v_j = 1 + 16 j + (5 j mod 16), j = 0, {}, .. < 32", gs),
+        metric: Metric::Units,
+    });
+    // TaylorExponent precision 10, 5 terms: points over [-10, 13.95]
+    let tn: i64 = if thorough { 512 } else { 256 };
+    let ts = 512 / tn;
+    out.push(SecureCase {
+        cfg: Cfg { op: Op::Taylor, signed: true, k: 5, p: 10, k_default: 5, approx: Approx::Internal },
+        pts: (0..tn).map(|j| j * ts).map(|i| (-10240 + 48 * i, 0)).collect(),
+        what: format!("x_i = -10240 + 48 i, i = 0, {}, .. < 512", ts),
+        metric: Metric::RelPpm,
+    });
+    out
+}
+
+#[derive(Clone, Debug)]
+struct SecureResult {
+    /// maximum of the metric (units or ppm)
+    max_dev: i128,
+    argmax: (i64, i64),
+    seed_at: u64,
+    plain_at: i128,
+    secure_at: i128,
+    /// number of (point, seed) pairs where compiled and plaintext differ at all
+    differing: u64,
+}
+
+fn deviation(metric: Metric, plain: i128, secure: i128) -> i128 {
+    let d = (secure - plain).abs();
+    match metric {
+        Metric::Units => d,
+        Metric::RelPpm => {
+            let m = 1 + plain.abs().max(secure.abs());
+            (((d - 2).max(0) as f64) * 1e6 / (m as f64)).ceil() as i128
+        }
+    }
+}
+
+fn secure_eval(case: &SecureCase, seeds: &[u64], plain_seed: u64) -> Result<SecureResult, String> {
+    let (cfg, pts) = (&case.cfg, &case.pts);
+    let ctx = build(cfg, pts.len() as u64)?;
+    let st = cfg.st();
+    let inputs: Vec<Value> = columns(cfg, pts).iter().map(|c| to_value(c, &st)).collect();
+    let plain = from_value(&eval_pipeline(&ctx, inputs.clone(), plain_seed)?, pts.len(), &st)?;
+    // every input owned by a party (input i by party i mod 3), output revealed to party 0
+    let owners: Vec<Owner> = (0..inputs.len()).map(|i| Owner::P((i % 3) as u8)).collect();
+    let compiled = mpcx::compile(&ctx, &owners, &[0], &InlineMode::Simple)?;
+    let plan = Plan::of_context(&compiled)?;
+    let types = mpcx::input_types(&ctx);
+    let mut zero = || 0u8;
+    let gin = mpcx::global_inputs(&types, &owners, &inputs, &mut zero);
+    let mut res = SecureResult { max_dev: -1, argmax: (0, 0), seed_at: 0, plain_at: 0, secure_at: 0, differing: 0 };
+    for s in seeds {
+        let out = mpcx::eval_compiled_global(&plan, &gin, *s, &mut RealRandomness)?;
+        let sec = from_value(&out, pts.len(), &st)?;
+        for i in 0..pts.len() {
+            let d = deviation(case.metric, plain[i], sec[i]);
+            if sec[i] != plain[i] {
+                res.differing += 1;
+            }
+            if d > res.max_dev {
+                res = SecureResult {
+                    max_dev: d,
+                    argmax: pts[i],
+                    seed_at: *s,
+                    plain_at: plain[i],
+                    secure_at: sec[i],
+                    differing: res.differing,
+                };
+            }
+        }
+    }
+    Ok(res)
+}
+
+fn secure_seeds(r: &Report) -> Vec<u64> {
+    let n = if r.tier.thorough() { SECURE_SEEDS_THOROUGH } else { SECURE_SEEDS_QUICK };
+    (0..n).map(|i| (r.seed ^ 0xC20C20).wrapping_add(i)).collect()
+}
+
+fn secure_bound(cfg: &Cfg) -> (i128, i128) {
+    SECURE_BOUNDS.iter().find(|b| b.0 == cfg.op.name()).map(|b| (b.1, b.2)).unwrap_or((0, 0))
+}
+
+fn secure_part(r: &Report, debug: bool) {
+    let cases = secure_cases(r.tier.thorough());
+    let seeds = secure_seeds(r);
+    let plain_seed = r.seed;
+    let results: Vec<Result<SecureResult, String>> =
+        cases.par_iter().map(|c| secure_eval(c, &seeds, plain_seed)).collect();
+    let mut measured = vec![];
+    for (case, res) in cases.iter().zip(results.iter()) {
+        let cfg = &case.cfg;
+        let bound = secure_bound(cfg);
+        let unit = if case.metric == Metric::Units { "grid units" } else { "ppm of the value (beyond 2 grid units)" };
+        r.count("evaluations", case.pts.len() as u64 * seeds.len() as u64);
+        r.count("secure_points", case.pts.len() as u64 * seeds.len() as u64);
+        r.count("secure_configurations", 1);
+        r.distinct_str(&format!("secure|{}", cfg.name()));
+        match res {
+            Err(e) => {
+                if debug {
+                    eprintln!("secure {:60} ERROR {}", cfg.name(), e);
+                }
+                measured.push(json!({"configuration": cfg.name(), "sub_grid": case.what, "error": e}));
+                r.violation(
+                    &format!("C20:secure:{}:compile-or-evaluation-failed", cfg.op.name()),
+                    &format!("compiled {} cannot be compiled/evaluated: {}", cfg.name(), e),
+                    json!({"kind": "secure", "cfg": cfg.to_json(), "sub_grid": case.what, "error": e,
+                           "thorough": r.tier.thorough(), "seed": seeds[0]}),
+                );
+            }
+            Ok(s) => {
+                r.count("secure_points_differing_from_plaintext", s.differing);
+                if debug {
+                    eprintln!(
+                        "secure {:60} n={} max_dev={} {} at {:?} (seed {}, plain {}, secure {}) differing={} bound {}",
+                        cfg.name(), case.pts.len(), s.max_dev, unit, s.argmax, s.seed_at, s.plain_at, s.secure_at,
+                        s.differing, bound.1
+                    );
+                }
+                measured.push(json!({
+                    "configuration": cfg.name(), "sub_grid": case.what, "points": case.pts.len(), "seeds": seeds.len(),
+                    "metric": unit,
+                    "max_deviation": s.max_dev.to_string(), "argmax": [s.argmax.0, s.argmax.1],
+                    "plaintext_at_argmax": s.plain_at.to_string(), "compiled_at_argmax": s.secure_at.to_string(),
+                    "point_seed_pairs_differing": s.differing,
+                    "frozen_bound": bound.1.to_string(), "measured_when_frozen": bound.0.to_string(),
+                    "label": "regression oracle: bound = 2 x maximum measured on the unchanged tree",
+                }));
+                if s.max_dev > bound.1 {
+                    r.violation(
+                        &format!("C20:secure:{}:deviation-above-frozen-bound", cfg.op.name()),
+                        &format!(
+                            "REGRESSION ORACLE: compiled {} deviates from plaintext by {} {} at input {:?} (plaintext {}, compiled {}), frozen bound {} (= 2 x {} measured on the unchanged tree)",
+                            cfg.name(), s.max_dev, unit, s.argmax, s.plain_at, s.secure_at, bound.1, bound.0
+                        ),
+                        json!({"kind": "secure", "cfg": cfg.to_json(), "sub_grid": case.what, "seed": s.seed_at,
+                               "thorough": r.tier.thorough(),
+                               "pt": [s.argmax.0, s.argmax.1], "plain": s.plain_at.to_string(),
+                               "secure": s.secure_at.to_string(), "bound": bound.1.to_string()}),
+                    );
+                }
+            }
+        }
+    }
+    r.extra("secure_vs_plaintext_regression", J::Array(measured));
+}
+
+// ---------------------------------------------------------------------------------------------
+// Replay
+// ---------------------------------------------------------------------------------------------
+
+pub fn replay(r: &Report, rec: &J) -> i32 {
+    let case = &rec["case"];
+    let cfg = match Cfg::from_json(&case["cfg"]) {
+        Some(c) => c,
+        None => {
+            println!("MACHINERY-ERROR property=C20 replay: cannot read the configuration");
+            return 2;
+        }
+    };
+    let kind = case["kind"].as_str().unwrap_or("");
+    let pt = (case["pt"][0].as_i64().unwrap_or(0), case["pt"][1].as_i64().unwrap_or(0));
+    match kind {
+        "plain" => {
+            let out = eval_points(&cfg, &[pt], r.seed);
+            match out {
+                Err(e) => {
+                    println!("REPLAY C20 {} at {:?}: evaluation failed: {}", cfg.name(), pt, e);
+                    1
+                }
+                Ok(o) => {
+                    let e = expect(&cfg, pt, o[0]);
+                    let err = (o[0] as f64 - e.exact).abs();
+                    println!(
+                        "REPLAY C20 {} input {:?}{}: observed {} expected {:.4} (exact function, grid units) error {:.4} allowed {:.4}",
+                        cfg.name(),
+                        pt,
+                        if cfg.approx != Approx::Internal {
+                            format!(" initial approximation {}", approx_value(&cfg, if cfg.op == Op::Gold { pt.1 } else { pt.0 }))
+                        } else {
+                            String::new()
+                        },
+                        o[0],
+                        e.exact,
+                        err,
+                        e.tol
+                    );
+                    if let Some((v, t)) = e.src {
+                        println!(
+                            "REPLAY C20   closed form tabulated by the source {:.4}, distance {:.4}, allowed {:.4}",
+                            v, (o[0] as f64 - v).abs(), t
+                        );
+                    }
+                    if !(e.ratio(o[0]) <= 1.0) {
+                        println!("REPLAY C20 reproduced");
+                        1
+                    } else {
+                        println!("REPLAY C20 not reproduced");
+                        0
+                    }
+                }
+            }
+        }
+        "plain-error" => {
+            let level = if case["full_grid"].as_bool().unwrap_or(false) { Level::Full } else { Level::Reduced };
+            let g = grid(&cfg, level, r.tier.thorough());
+            let n = g.pts.len().min(chunk_size(&cfg));
+            match eval_points(&cfg, &g.pts[..n], r.seed) {
+                Err(e) => {
+                    println!("REPLAY C20 {}: evaluation failed: {}", cfg.name(), e);
+                    println!("REPLAY C20 reproduced");
+                    1
+                }
+                Ok(_) => {
+                    println!("REPLAY C20 {}: evaluation succeeded; not reproduced", cfg.name());
+                    0
+                }
+            }
+        }
+        "secure" => {
+            let cases = secure_cases(case["thorough"].as_bool().unwrap_or(false));
+            let c = match cases.iter().find(|c| c.cfg.name() == cfg.name()) {
+                Some(c) => c,
+                None => {
+                    println!("MACHINERY-ERROR property=C20 replay: unknown secure configuration");
+                    return 2;
+                }
+            };
+            let seed = case["seed"].as_u64().unwrap_or(0);
+            let bound = secure_bound(&cfg).1;
+            match secure_eval(c, &[seed], r.seed) {
+                Err(e) => {
+                    println!("REPLAY C20 secure {}: failed: {}", cfg.name(), e);
+                    println!("REPLAY C20 reproduced");
+                    1
+                }
+                Ok(s) => {
+                    println!(
+                        "REPLAY C20 secure {} seed {}: max deviation {} ({:?}) at {:?} (plaintext {}, compiled {}), frozen regression bound {}",
+                        cfg.name(), seed, s.max_dev, c.metric, s.argmax, s.plain_at, s.secure_at, bound
+                    );
+                    if s.max_dev > bound {
+                        println!("REPLAY C20 reproduced");
+                        1
+                    } else {
+                        println!("REPLAY C20 not reproduced");
+                        0
+                    }
+                }
+            }
+        }
+        _ => {
+            println!("MACHINERY-ERROR property=C20 replay: unknown case kind '{}'", kind);
+            2
+        }
+    }
 }
